@@ -162,7 +162,7 @@ theorem acquire_some {s : Sys} {i : Nat} {pc pc' : Pc} {a act : Act} (h : acquir
   · rename_i hf; cases h; exact ⟨rfl, rfl, hf⟩
   · cases h
 
-theorem swPc_held (cid : Nat) (a : List Nat) (o) : (swPc cid a o).held = ⟨.n, some (cid, .w)⟩ := by
+theorem swPc_held (cid : Nat) (a : List Nat) (st : List Wid) (o) : (swPc cid a st o).held = ⟨.n, some (cid, .w)⟩ := by
   cases o with
   | none => rfl
   | some p => obtain ⟨w, r⟩ := p; rfl
